@@ -118,6 +118,7 @@ type Enc struct {
 	oblCount map[string]int
 	top      *Frame
 	nobounds bool
+	forkjoin bool
 	inlineStack []*ssa.Function
 	callOrd  map[string]int
 	lastFacts []string
@@ -1716,7 +1717,7 @@ func (e *Enc) writeSet(fr *Frame, li *loopInfo, st *State, instr ssa.Instruction
 	case *ssa.Select:
 		ws.whole("CH:len", "(Array Int Int)")
 	case ssa.CallInstruction:
-		if _, isGo := x.(*ssa.Go); isGo {
+		if _, isGo := x.(*ssa.Go); isGo && !e.forkjoin {
 			return
 		}
 		e.callWriteSet(fr, li, st, x.Common(), ws, allocs, all, depth)
